@@ -477,4 +477,61 @@ def globDir (ext nc dotglob : Bool) (p : Str) (names : List Str) : List Str :=
   let allowDot := dotglob || startsWithDot p
   sortStrs (names.filter fun n => exactlyMatches ext nc p n && (!startsWithDot n || allowDot))
 
+/-! ## patterns as lists of pieces (`PatternPiece`, `Pattern::to_regex_str`, `Pattern::expand`)
+
+Word expansion hands a pattern over as a list of pieces, cut at every quoting and expansion
+boundary: `[a"b"]` arrives as `[a`, literal `b`, `]`; `[$set]` as `[`, `abc`, `]`. -/
+
+inductive PatPiece
+  | lit (s : Str)      -- came out of quotes / a backslash escape: to be matched literally
+  | pat (s : Str)      -- unquoted text: pattern syntax is live
+deriving DecidableEq, Repr
+
+/-- `PatternPiece::as_str` -/
+def PatPiece.raw : PatPiece → Str
+  | .lit s => s
+  | .pat s => s
+
+/-- the `current_pattern.push…` loop of `to_regex_str`: unquoted pieces are appended as they are,
+quoted ones with a backslash in front of every `regex_char_is_special` character -/
+def piecesTextGo (acc : Str) : List PatPiece → Str
+  | [] => acc
+  | .pat s :: ps => piecesTextGo (acc ++ s) ps
+  | .lit s :: ps => piecesTextGo (s.foldl (fun a c => if isSpecial c then a ++ ['\\', c] else a ++ [c]) acc) ps
+
+def piecesText (ps : List PatPiece) : Str := piecesTextGo [] ps
+
+/-- `Pattern::exactly_matches` on a piece list (what `case`, `[[ == ]]`, `${v#p}` … compute) -/
+def piecesMatch (ext nc : Bool) (ps : List PatPiece) (s : Str) : Bool :=
+  exactlyMatches ext nc (piecesText ps) s
+
+/-- the declarative reading: the pieces joined, quoted ones escaped -/
+def PatPiece.text : PatPiece → Str
+  | .lit s => escapeLiteral s
+  | .pat s => s
+
+def joinPieces (ps : List PatPiece) : Str := ps.flatMap PatPiece.text
+
+/-- `requires_expansion` of one piece, as `Pattern::expand` asks it -/
+def PatPiece.requiresExpansion (ext : Bool) : PatPiece → Bool
+  | .pat s => hasGlob ext s
+  | .lit _ => false
+
+/-- `split_fields` (expansion.rs) glues adjacent unquoted pieces of a field together before pathname
+expansion sees them: `[$set]` arrives there as the single piece `[abc]` -/
+def mergeAdjacent : List PatPiece → List PatPiece
+  | .pat a :: .pat b :: ps => mergeAdjacent (.pat (a ++ b) :: ps)
+  | p :: ps => p :: mergeAdjacent ps
+  | [] => []
+termination_by l => l.length
+
+/-- `Pattern::expand` for a one-component pattern in one directory: `none` = the early exit
+"no piece requires expansion" (the word is kept as it is); the dot-file rule looks at the raw text
+of the first piece -/
+def expandPieces (ext nc dotglob : Bool) (ps : List PatPiece) (names : List Str) : Option (List Str) :=
+  if !(ps.any (PatPiece.requiresExpansion ext)) then none
+  else
+    let allowDot := dotglob || (match ps with | p :: _ => startsWithDot p.raw | [] => false)
+    some (sortStrs (names.filter fun n => piecesMatch ext nc ps n && (!startsWithDot n || allowDot)))
+
 end BrushVerif.Pattern
